@@ -97,6 +97,19 @@ def assigned_names(node):
     return out
 
 
+def _init_assigns(cls, name):
+    """does some __init__ in the class's mro assign self.<name>?"""
+    for c in cls.mro():
+        m = c.methods.get('__init__')
+        if m is None:
+            continue
+        for n in ast.walk(m.node):
+            if isinstance(n, ast.Attribute) and isinstance(n.ctx, ast.Store) and n.attr == name \
+                    and isinstance(n.value, ast.Name) and n.value.id == 'self':
+                return True
+    return False
+
+
 class State:
     """per-path mutable state that is not an Obj attribute"""
     def __init__(self):
@@ -423,6 +436,10 @@ class Interp:
             la = self.lib.object_attr(self, v, name)
             if la is not None:
                 return la
+            if v.cls is not None and _init_assigns(v.cls, name):
+                # the class's constructor defines this attribute but the object at hand (built by a sidecar setup) lacks it:
+                # the sidecar is behind the source -> undecided, never the program's AttributeError
+                raise Unsupported('attribute %s is assigned by %s.__init__ but missing from the pre-state built by the sidecar' % (name, v.cls.name))
             self.ctx.raise_exc('AttributeError', '%r has no attribute %s' % (v, name))
         if isinstance(v, SymObj):
             key = (v.cls.name, name)
